@@ -191,8 +191,11 @@ def _mutate(rng, doc):
                                       nm[:1] + "_*" + nm[1:], "%s_*_*" % nm])
                 s.setdefault("run", {}).setdefault("depends", []).append(spelled)
             elif op == "undefined-dep":
+                other = str(rng.choice(steps).get("name"))
                 s.setdefault("run", {}).setdefault("depends", []).append(
-                    rng.choice(["nosuch", "nosuch_*", "nosuch*", "*"]))
+                    rng.choice(["nosuch", "nosuch_*", "nosuch*", "*",
+                                # names that differ from a defined step only by underscores / a prefix
+                                other + "__*", other + "_", "_" + other + "_*", other + "x_*", other[:-1] + "_*"]))
             elif op == "dup-dep":
                 dep = s.setdefault("run", {}).setdefault("depends", [])
                 if dep:
@@ -283,7 +286,9 @@ def _mutate(rng, doc):
             parent.pop(key)
         return d, "delete %s" % where
     if op == "rename" and isinstance(parent, dict):
-        new = rng.choice(["unknown", "Name", "cmds", key + "x" if isinstance(key, str) else "k"])
+        # (a key may hold a quote; keys that are not strings are outside the modelled documents)
+        new = rng.choice(["unknown", "Name", "cmds", key + "x" if isinstance(key, str) else "k",
+                          "it's", "'", "a'b'c", "q\"r"])
         parent[new] = parent.pop(key)
         return d, "rename %s to %s" % (where, new)
     if op == "retype":
